@@ -229,13 +229,14 @@ func (r *replayer) replay(e entryInfo, ob *obligation) (dir string, reproduced b
 
 var ssaMethodRe = regexp.MustCompile(`^\(\*(.*)\.(\w+)\)\.(\w+)$`)
 
-// raceSideIn: one side of a candidate appears in a race report - by source line, or (for an access a
-// harness stub makes on behalf of the real collaborator, zzverif.RaceTouch) by the stub's function.
+// raceSideIn: one side of a candidate appears in a race report - by source line or by its function.
 func raceSideIn(block, where, fn string) bool {
 	if strings.Contains(block, where+" ") {
 		return true
 	}
-	if strings.Contains(where, "zz_verif_") && fn != "" {
+	// the detector attributes map and struct-copy accesses to runtime helpers and to the line of the
+	// enclosing statement, which need not be the line of the SSA instruction: the function is enough
+	if fn != "" {
 		if mm := ssaMethodRe.FindStringSubmatch(fn); mm != nil {
 			fn = mm[1] + ".(*" + mm[2] + ")." + mm[3]
 		}
